@@ -565,9 +565,13 @@ def evaluate_case(draw, backend='threading'):
         n_jobs = draw(st.sampled_from([1, 2, 2, 3, 4, 4, 8, -1]))
         fn = draw(st.sampled_from(['eval_fixed', 'probe']))
     single = n_models == 1 and draw(st.booleans())
+    # a flexible model evaluated at explicitly given weights: theta travels with every call
+    theta = None
+    if n_models >= 2 and draw(st.integers(0, 2)) == 0:
+        theta = [draw(st.sampled_from([0.25, 1.0, 3.0])), draw(st.sampled_from([0.0, 0.5, 2.0]))]
     return dict(rdms=rows, models=models, voxel_index=vi, method=draw(st.sampled_from(EVAL_METHODS)),
                 n_jobs=n_jobs, backend=backend if n_jobs != 1 else 'default', fn=fn,
-                single_model=single)
+                single_model=single, theta=theta)
 
 
 def _evals(r, fn):
@@ -586,18 +590,26 @@ def check_evaluate(case):
     marg = models[0] if case.get('single_model') else models
     f = eval_probe if fn == 'probe' else eval_fixed
     backend = case['backend']
+    kw = {}
+    if case.get('theta'):
+        from rsatoolbox.model import ModelWeighted
+        w = np.array(case['theta'], dtype=float)
+        models = [ModelWeighted('w', np.array(mvecs[:2]))]
+        marg = models
+        mvecs = [w[0] * mvecs[0] + w[1] * mvecs[1]]
+        kw = {'theta': [w.copy()]}
     try:
         if backend == 'threading':
             with joblib.parallel_backend('threading'):
                 res = lib(S.evaluate_models_searchlight, sl, marg, f, method=method, n_jobs=n_jobs,
-                          on_error='violation', sig='raises:evaluate_models_searchlight')
+                          on_error='violation', sig='raises:evaluate_models_searchlight', **kw)
         elif backend == 'loky':
             with allow_children():
                 res = lib(S.evaluate_models_searchlight, sl, marg, f, method=method, n_jobs=n_jobs,
-                          on_error='violation', sig='raises:evaluate_models_searchlight')
+                          on_error='violation', sig='raises:evaluate_models_searchlight', **kw)
         else:
             res = lib(S.evaluate_models_searchlight, sl, marg, f, method=method, n_jobs=n_jobs,
-                      on_error='violation', sig='raises:evaluate_models_searchlight')
+                      on_error='violation', sig='raises:evaluate_models_searchlight', **kw)
     finally:
         if backend == 'loky':
             shutdown_loky()
@@ -620,7 +632,7 @@ def check_evaluate(case):
                                       ' (that is the evaluation of centre %s)' % other[:3]
                                       if other else ''),
                             'evaluate:order' if other else 'evaluate:value')
-        direct = eval_fixed(models, sl[i], method=method)
+        direct = eval_fixed(models, sl[i], method=method, **kw)
         require_close(ev, np.asarray(direct.evaluations)[0, :, 0],
                       'result %d vs direct eval_fixed on RDM %d' % (i, i), 'evaluate:vs-direct',
                       rtol=1e-12, atol=1e-13)
@@ -628,7 +640,7 @@ def check_evaluate(case):
             require(res[i]['voxel_index'] == [vi[i]] and res[i]['n_rdm'] == 1,
                     'call %d received voxel_index %s, expected [%d]' % (
                         i, res[i]['voxel_index'], vi[i]), 'evaluate:order')
-            require(res[i]['method'] == method and res[i]['theta_is_none'],
+            require(res[i]['method'] == method and res[i]['theta_is_none'] == (not kw),
                     'method/theta not passed through', 'evaluate:arguments')
         else:
             require(res[i].method == method, 'result method %r' % res[i].method,
@@ -641,7 +653,7 @@ def check_evaluate(case):
         if any(os.path.realpath(r['src']) != os.path.realpath(want_src) for r in res):
             raise Reject('worker imported another tree', 'harness:loky-other-tree')
         # same call with the default sequential path: identical list
-        seq = S.evaluate_models_searchlight(sl, marg, f, method=method, n_jobs=1)
+        seq = S.evaluate_models_searchlight(sl, marg, f, method=method, n_jobs=1, **kw)
         for i in range(n):
             require(np.array_equal(_evals(seq[i], fn), _evals(res[i], fn)),
                     'n_jobs=%d and n_jobs=1 differ at result %d' % (n_jobs, i),
@@ -652,7 +664,8 @@ def classify_evaluate(case):
     n = len(case['rdms'])
     labels = ['n_jobs=%r' % case['n_jobs'], 'backend:' + case['backend'], 'fn:' + case['fn'],
               'method:' + case['method'], 'centres>n_jobs' if n > abs(case['n_jobs']) else
-              'centres<=n_jobs', 'single-model-arg' if case.get('single_model') else 'model-list']
+              'centres<=n_jobs', 'single-model-arg' if case.get('single_model') else 'model-list',
+              'theta:given' if case.get('theta') else 'theta:none']
     return labels, n >= 2 and case['n_jobs'] != 1
 
 
